@@ -702,6 +702,10 @@ func (w *tunnelWorld) longLived(world string, d time.Duration) (n int, fails [][
 			}
 			conn, err := w.open(p)
 			if err != nil {
+				e4.WaitAllActive(w.nodes, 30*time.Second)
+				conn, err = w.open(p)
+			}
+			if err != nil {
 				fail("tunnel-open-failed", err.Error())
 				return
 			}
@@ -818,6 +822,7 @@ func init() {
 					}
 					sig, msg := wt.run(c)
 					if sig == "tunnel-open-failed" {
+						e4.WaitAllActive(wt.nodes, 30*time.Second)
 						sig, msg = wt.run(c)
 					}
 					tn++
@@ -836,6 +841,7 @@ func init() {
 				if run.Violations() < 3 {
 					sig, msg := w.run(c)
 					if sig == "tunnel-open-failed" {
+						e4.WaitAllActive(w.nodes, 30*time.Second)
 						sig, msg = w.run(c)
 					}
 					tn++
@@ -853,6 +859,7 @@ func init() {
 						}
 						sig, msg := w.run(c)
 						if sig != "" && (sig == "tunnel-open-failed") {
+							e4.WaitAllActive(w.nodes, 30*time.Second)
 							sig, msg = w.run(c)
 						}
 						tn++
